@@ -85,7 +85,7 @@ static std::string interference_key(const Plan &plan, const Solo &solo, const Mi
 }
 
 // ------------------------------------------------------------------ plan surgery for minimisation
-static void drop_task(Plan &p, Schedule &s, int t) {
+void drop_task(Plan &p, Schedule &s, int t) {
     p.tasks.erase(p.tasks.begin() + t);
     std::vector<Switch> out;
     for (auto w : s.sw) {
@@ -98,7 +98,7 @@ static void drop_task(Plan &p, Schedule &s, int t) {
     if (s.start == t) s.start = 0;
     else if (s.start > t) s.start--;
 }
-static void drop_op(Plan &p, Schedule &s, int t, int o) {
+void drop_op(Plan &p, Schedule &s, int t, int o) {
     p.tasks[t].ops.erase(p.tasks[t].ops.begin() + o);
     std::vector<Switch> out;
     for (auto w : s.sw) {
